@@ -137,6 +137,35 @@ Proof.
   destruct (cur =? 0); [reflexivity|]. intros ->. reflexivity.
 Qed.
 
+(* a precedes b in the key list *)
+Definition kbefore {K} (ks : list K) (a b : K) : Prop := exists p q, ks = p ++ a :: q /\ In b q.
+Lemma kbefore_cons_inv {K} (h : K) ks a b : kbefore (h :: ks) a b -> (a = h /\ In b ks) \/ kbefore ks a b.
+Proof.
+  intros (p & q & E & Hb). destruct p as [|x p]; cbn [app] in E; inversion E; subst.
+  - left. auto.
+  - right. exists p, q. auto.
+Qed.
+Lemma kbefore_cons {K} (h : K) ks a b : kbefore ks a b -> kbefore (h :: ks) a b.
+Proof. intros (p & q & E & Hb). exists (h :: p), q. subst. auto. Qed.
+Lemma kbefore_head {K} (h : K) ks b : In b ks -> kbefore (h :: ks) h b.
+Proof. intros H. exists [], ks. auto. Qed.
+Lemma kbefore_app {K} (ks m : list K) a b : kbefore ks a b -> kbefore (ks ++ m) a b.
+Proof. intros (p & q & E & Hb). exists p, (q ++ m). subst. rewrite <- app_assoc. split; [reflexivity|apply in_or_app; auto]. Qed.
+Lemma kbefore_snoc {K} (ks : list K) a b : In a ks -> kbefore (ks ++ [b]) a b.
+Proof.
+  intros H. apply in_split in H as (p & q & ->). exists p, (q ++ [b]). rewrite <- app_assoc. split; [reflexivity|].
+  apply in_or_app. right. left. reflexivity.
+Qed.
+Lemma kbefore_in_r {K} (ks : list K) a b : kbefore ks a b -> In b ks.
+Proof. intros (p & q & -> & Hb). apply in_or_app. right. right. exact Hb. Qed.
+Lemma kbefore_in_l {K} (ks : list K) a b : kbefore ks a b -> In a ks.
+Proof. intros (p & q & -> & Hb). apply in_or_app. right. left. reflexivity. Qed.
+Lemma kbefore_nodup_head {K} (h : K) ks a : NoDup (h :: ks) -> ~ kbefore (h :: ks) a h.
+Proof.
+  intros ND KB. inversion ND as [|? ? NI _]; subst. apply kbefore_cons_inv in KB as [[_ X]|X]; [exact (NI X)|].
+  exact (NI (kbefore_in_r _ _ _ X)).
+Qed.
+
 (* the state of the automaton is compatible with emitting the list l of attempts from its head *)
 Record atts_inv (c : cstate) (f : N) (ro : option N) (l : list (akey * list aev)) : Prop := mk_atts_inv {
   ai_nodup : NoDup (keys l);
@@ -148,10 +177,10 @@ Record atts_inv (c : cstate) (f : N) (ro : option N) (l : list (akey * list aev)
             | [] => True end;
   ai_open : forall k', lookup atkey_eqb k' (c_atts c) = Some Open ->
             match l with (k, es) :: _ => k' = att_key f ro k /\ starts_started es = false | [] => False end;
-  ai_prev : forall pre k es post, l = pre ++ (k, es) :: post ->
+  ai_prev : forall k es, In (k, es) l ->
             match prev_key f ro k with
             | Some pk => lookup atkey_eqb pk (c_atts c) = Some Closed \/
-                         (exists k0 es0, In (k0, es0) pre /\ att_key f ro k0 = pk /\ has_fin es0 = true)
+                         (exists k0, att_key f ro k0 = pk /\ kbefore (keys l) k0 k)
             | None => True end }.
 
 Lemma att_key_inj f ro k1 k2 : att_key f ro k1 = att_key f ro k2 -> k1 = k2.
@@ -217,8 +246,8 @@ Proof.
   intros [ND SH TL FR HD OP PV] (_ & _ & W3). split.
   - intros SS. split; [exact (FR k es (or_introl eq_refl) SS)|]. split.
     + apply open_atts_all_false; [exact W3|]. intros k' L. destruct (OP k' L) as [_ X]. congruence.
-    + apply prev_closed_of_key. specialize (PV [] k es t eq_refl). destruct (prev_key f ro k); [|exact I].
-      destruct PV as [X|(k0 & es0 & [] & _)]. exact X.
+    + apply prev_closed_of_key. specialize (PV k es (or_introl eq_refl)). destruct (prev_key f ro k); [|exact I].
+      destruct PV as [X|(k0 & _ & KB)]; [exact X|]. exfalso. exact (kbefore_nodup_head k (keys t) k0 ND KB).
   - intros SS. right. exact (HD SS).
 Qed.
 
@@ -267,14 +296,15 @@ Proof.
           + apply atkey_eqb_spec in E. subst k'. congruence.
           + assert (NE : k' <> att_key f (Some r) k) by (intros ->; rewrite (proj2 (atkey_eqb_spec _ _) eq_refl) in E; discriminate).
             rewrite (LO1 _ NE) in L. destruct (OP k' L) as [X _]. contradiction.
-        - intros pre k2 es2 post E. specialize (PV ((k, es) :: pre) k2 es2 post). cbn [app] in PV. rewrite E in PV.
-          specialize (PV eq_refl). destruct (prev_key f (Some r) k2) as [pk|] eqn:PK; [|exact I].
-          destruct PV as [X|(k0 & es0 & [H0|H0] & KE & HF0)].
+        - intros k2 es2 H2. pose proof (PV k2 es2 (or_intror H2)) as PV2.
+          destruct (prev_key f (Some r) k2) as [pk|] eqn:PK; [|exact I].
+          destruct PV2 as [X|(k0 & KE & KB)].
           + left. destruct (atkey_eqb pk (att_key f (Some r) k)) eqn:E2.
             * apply atkey_eqb_spec in E2. subst pk. exact CL.
             * rewrite LO1; [exact X|]. intros ->. rewrite (proj2 (atkey_eqb_spec _ _) eq_refl) in E2. discriminate.
-          + inversion H0; subst. left. exact CL.
-          + right. exists k0, es0. auto. }
+          + change (keys ((k, es) :: t)) with (k :: keys t) in KB. apply kbefore_cons_inv in KB as [[-> _]|KB].
+            * left. rewrite <- KE. exact CL.
+            * right. exists k0. split; [exact KE|exact KB]. }
       destruct (IH c1 INV1 W1 CF1 PS1) as (c' & R & SB & INV' & LO & LC).
       destruct (emit_atts f r t) as [o2 l2]. cbn [fst snd] in *.
       exists c'. split; [rewrite map_app, crun_app; match goal with |- match ?X with _ => _ end = _ => replace X with (Some c1) by (symmetry; exact R1) end; exact R|]. split; [exact (same_but_atts_trans _ _ _ SB1 SB)|].
@@ -300,19 +330,11 @@ Proof.
            ++ apply atkey_eqb_spec in E. exact E.
            ++ assert (NE : k' <> att_key f (Some r) k) by (intros ->; rewrite (proj2 (atkey_eqb_spec _ _) eq_refl) in E; discriminate).
               rewrite (LO1 _ NE) in L. destruct (OP k' L) as [X _]. contradiction.
-        -- intros pre k2 es2 post E.
-           assert (PVc : match prev_key f (Some r) k2 with
-                         | Some pk => lookup atkey_eqb pk (c_atts c) = Some Closed \/
-                                      (exists k0 es0, In (k0, es0) pre /\ att_key f (Some r) k0 = pk /\ has_fin es0 = true)
-                         | None => True end).
-           { pose proof (PV [] k es t eq_refl) as PV0.
-             destruct pre as [|[k0 es0] pre'].
-             - cbn [app] in E. inversion E as [[Ea Eb Ec]]. rewrite <- Ea. exact PV0.
-             - cbn [app] in E. inversion E as [[Ea Eb Ec]]. specialize (PV ((k, es) :: pre') k2 es2 post).
-               cbn [app] in PV. rewrite Ec in PV. specialize (PV eq_refl).
-               destruct (prev_key f (Some r) k2); [|exact I]. destruct PV as [X|(k3 & es3 & [H3|H3] & KE & HF3)]; [left; exact X| |].
-               + inversion H3; subst. congruence.
-               + right. exists k3, es3. split; [right; exact H3|auto]. }
+        -- intros k2 es2 H2.
+           assert (H2' : exists es2', In (k2, es2') ((k, es) :: t)).
+           { destruct H2 as [H2|H2]; [inversion H2; subst; exists es; left; reflexivity|exists es2; right; exact H2]. }
+           destruct H2' as (es2' & H2').
+           pose proof (PV k2 es2' H2') as PVc. change (keys ((k, []) :: t)) with (keys ((k, es) :: t)).
            destruct (prev_key f (Some r) k2) as [pk|] eqn:PK; [|exact I]. destruct PVc as [X|X]; [|right; exact X].
            left. destruct (atkey_eqb pk (att_key f (Some r) k)) eqn:E2.
            ++ apply atkey_eqb_spec in E2. subst pk. exfalso. destruct (starts_started es) eqn:SS.
@@ -331,7 +353,7 @@ Proof.
   - intros k es H SS. rewrite E. exact (FR k es H SS).
   - destruct l as [|[k es] t]; [exact I|]. intros SS. rewrite E. exact (HD SS).
   - intros k'. rewrite E. exact (OP k').
-  - intros pre k es post EQ. specialize (PV pre k es post EQ). destruct (prev_key f ro k); [|exact I]. rewrite E. exact PV.
+  - intros k es H. specialize (PV k es H). destruct (prev_key f ro k); [|exact I]. rewrite E. exact PV.
 Qed.
 
 Definition same_but_atts_rules (c c' : cstate) : Prop :=
